@@ -180,6 +180,7 @@ PROPS = {
         "level_note": CODEC_NOTE + " Allocation is modelled as the arguments of the three input-dependent make() sites (runtime allocator overhead trusted; the harness bounds the measured TotalAlloc).",
     },
     "C14": {
+        "gen": ["consts", "shape"],
         "modes": [{"name": "ufsio", "harness": "ufsio", "modelcheck": "ufs"}],
         "rule": "real Clnt <-> real server framework <-> Ufs on a scratch tree: file lengths {0, 1, iounit-1, iounit, iounit+1, 2*iounit+1, 3*iounit-1, random} with random contents, msize {128, 256, 1000, 4096, 8192, 65536}, both dialects, 6-15 operations per file among Clnt.Read, File.Readn, File.Read, Clnt.Write, File.Written, File.Write with offsets at 0 / EOF-1 / EOF / past EOF / random and counts 0 / 1 / iounit / several iounits, a second file open at the same time. Oracle: after every operation the harness compares with the underlying file through the os package (returned bytes = file[off:off+n], file after write = POSIX pwrite); correspondence: the Coq model frun on the same operations returns the same data/counts/EOF and final file. Non-trivial: a case with at least one read-type and one write-type operation; distinct by content.",
         "level_text": "Coq theorems (Props/C14.v) over the model of Ufs.Read/Ufs.Write on a regular file, the srv.read/write count guard, Clnt.Open's iounit, Clnt.Read/Write and the File helpers: for every file content, msize, iounit, offset and count the bytes read equal POSIX pread of the file (empty at or beyond EOF), File.Read advances its offset by what it returned, Readn returns exactly the requested bytes up to EOF and Written leaves exactly pwrite(file, off, data) for ANY chunking (two different iounits give the same file). Tied to the code by differential runs against real files.",
@@ -187,6 +188,7 @@ PROPS = {
         "assumptions": ["os.File.ReadAt/WriteAt behave as POSIX pread/pwrite on regular files"],
     },
     "C15": {
+        "gen": ["consts", "shape"],
         "modes": [{"name": "ufsdir", "harness": "ufsdir", "modelcheck": "ufs"}],
         "rule": "directories of 0, 1, 2, 5, 50 (thorough: up to 5000) entries with name lengths 1..255 on a scratch tree, msize {512, 4096, 65536}, both dialects; listings following the offset rule for every count from the largest entry size to three entries (exhaustive for small directories), random counts otherwise, too-small counts (max-1, 1, 0, first-1), restart at offset 0 mid-listing, arbitrary offsets (past the end, inside an entry, on boundaries) with counts 0/max/iounit, and the client's Readdir(0). Oracle (from the decoded record sizes and os.ReadDir only): every reply consists of whole entries, <= count bytes, offsets chain, complete set exactly once, error iff the next entry does not fit; correspondence: the Coq dir_window/listing model fed with the observed entry sizes predicts the same chunks and outcome. Non-trivial: a listing of >= 2 replies or a too-small case, and every off-rule offset case; distinct by content.",
         "level_text": "Coq theorems (Props/C15.v) over the arithmetic model (Go int as Z) of the directory branch of Ufs.Read: for every listing (any number of entries, any positive sizes), every offset and count: a reply consists of whole consecutive entries of at most count bytes and is non-empty while entries remain; following the offset rule with counts >= the largest entry yields every entry exactly once in order and then an empty reply; a count too small for the next entry is an error; Readdir(0) gets everything; off-rule offsets are refused or empty and never an ill-formed slice. Tied to the code by listings of real directories.",
@@ -210,6 +212,7 @@ PROPS = {
         "level_note": "Trusted: Coq kernel; extraction + OCaml driver; the Go harness: the translation of the library's schedule points (verifPoint hooks, logged under one mutex inside the library's own critical sections) into LTS labels, the scripted implementation, the fake transport. The LTS over-approximates call/return of nested Respond calls (every real schedule is a schedule of the LTS); mutex atomicity, channel FIFO/rendezvous and goroutine semantics of the Go runtime are assumed; the fid table and message contents are abstracted (C04/C05 and content ids); reply-buffer recycling between requests is exercised by the harness only. Print Assumptions: closed under the global context. Shared-tag targets are outside the quantifier (hypothesis NoGroups).",
     },
     "C08": {
+        "gen": ["consts", "shape"],
         "clauses": ["C08"],
         "modes": [{"name": "srvconc", "harness": "srvconc", "modelcheck": "conc"},
                   {"name": "clnt", "harness": "clnt", "modelcheck": "clnt"}],
@@ -229,6 +232,7 @@ PROPS = {
         "level_note": "Trusted: Coq kernel; extraction + OCaml driver; the Go harness: the translation of the library's schedule points (verifPoint hooks, logged under one mutex inside the library's own critical sections) into LTS labels, the scripted implementation, the fake transport. The LTS over-approximates call/return of nested Respond calls (every real schedule is a schedule of the LTS); mutex atomicity, channel FIFO/rendezvous and goroutine semantics of the Go runtime are assumed; the fid table and message contents are abstracted (C04/C05 and content ids); reply-buffer recycling between requests is exercised by the harness only. Print Assumptions: closed under the global context. Not covered by a theorem: fids created by requests that complete after the close loop (they are reclaimed only by the garbage collector), Ufs closing its descriptors (FidDestroy -> Close is one line, exercised by the Ufs harness sessions), goroutine counts (checked through the model's finished-frames criterion, not through the runtime).",
     },
     "C04": {
+        "gen": ["consts", "shape"],
         "clauses": ["C04"],
         "modes": [{"name": "srvseq-random", "harness": "srvseq", "modelcheck": "srvseq", "args": ["random"]},
                   {"name": "srvseq-product", "harness": "srvseq", "modelcheck": "srvseq", "args": ["product"]}],
@@ -237,6 +241,7 @@ PROPS = {
         "level_note": "Trusted: Coq kernel; translator for error texts/numbers, IOHDRSZ/MSIZE/NOFID/NOUID and the QT*/DM*/O* bits; extraction + OCaml driver; the Go harness (scripted implementation, net.Pipe transport). One request at a time (the concurrent life cycle is C03/C07/C08/C11); the user database is the default OsUsers; the implementation is an arbitrary input (script) answering with the matching R-message or an error; the reply buffer is modelled by its capacity. Print Assumptions: closed under the global context. With msize below 13+len(text) the error text is truncated (theorems carry that hypothesis). Fid numbers private to a connection: connections share no fid state in the model (one table per conn), checked by the harness only through separate sessions.",
     },
     "C05": {
+        "gen": ["consts", "shape"],
         "clauses": ["C05"],
         "modes": [{"name": "srvseq-product", "harness": "srvseq", "modelcheck": "srvseq", "args": ["product"]},
                   {"name": "srvseq-random", "harness": "srvseq", "modelcheck": "srvseq", "args": ["random"]}],
@@ -271,6 +276,7 @@ PROPS = {
         "level_note": "Trusted: Coq kernel; translator; extraction + OCaml driver; Go harness with the hook rpcnb.linked. Wall-clock bounds are only measured by the harness (3 s deadline); Unmount is exercised by the oracle only (it sets clnt.err from the caller's goroutine, which the LTS models as a failure noticed by recv). Print Assumptions: closed under the global context.",
     },
     "C16": {
+        "gen": ["consts", "shape"],
         "clauses": ["C16"],
         "modes": [{"name": "ufstree-meta", "harness": "ufstree", "modelcheck": "ufstree", "args": ["meta"]}],
         "rule": "random trees on a scratch directory (names with spaces, non-ASCII bytes, dots, 255-byte names; files, directories, symlinks, hard links; a 40-level chain so client walks need several Twalks): FStat of every object in both dialects compared field by field with os.Lstat (qid type/path, DMDIR, DMSYMLINK, permission bits, length, mtime, name); walks of 1..15 elements of which a prefix exists, in place and to a new fid, compared with os.Lstat (qid count and inodes, error when the first is missing) and with the host path each fid designates afterwards (accessor VerifUfsFidPath); deep and missing paths through FStat. The Coq metadata mapping is evaluated on the Lstat facts and compared with the reply. Distinct by content.",
@@ -278,6 +284,7 @@ PROPS = {
         "level_note": "Trusted: Coq kernel; extraction + OCaml driver; Go harness (spy wrapper around Ufs using the build-tagged accessor for fid paths). The tree is an oracle in the model: real Lstat/inode semantics, user and group name lookup and walks through symlinks are outside the model (compared with the OS by the harness only). Print Assumptions: closed under the global context.",
     },
     "C17": {
+        "gen": ["consts", "shape"],
         "clauses": ["C17"],
         "modes": [{"name": "ufstree-mutate", "harness": "ufstree", "modelcheck": "ufstree", "args": ["mutate"]}],
         "rule": "random sequences of 14 mutations (create with all open modes incl. OTRUNC on free and occupied names and under non-directories, mkdir, symlink incl. dangling targets, write at random offsets, remove of files / empty and non-empty directories / missing names, rename to free and occupied names, truncate 0..beyond size, chmod, set mtime) applied through 9P to tree A and, using the statement's table, with os/syscall to a twin tree B; after EVERY step the trees are compared recursively (names, kinds, permission bits, contents, link targets) and the outcome and, in 9P2000.u, the error number are compared with the POSIX call on B. Distinct by content.",
@@ -285,6 +292,7 @@ PROPS = {
         "level_note": "Partial by design: the handlers' choice of system calls is proved, POSIX semantics are an oracle (twin tree). Trusted: Coq kernel; extraction; Go harness. Ownership changes (chown, user lookup) are not modelled; the harness runs as root, so permission denials are not exercised. Print Assumptions: closed under the global context.",
     },
     "C18": {
+        "gen": ["consts", "shape"],
         "clauses": ["C18"],
         "modes": [{"name": "ufstree-confine", "harness": "ufstree", "modelcheck": "ufstree", "args": ["confine"]}],
         "rule": "scratch layout outer/{canary files and directories}, outer/root/...; sessions of attach names, walk element lists, create names (files and symlinks with hostile targets) and wstat rename targets drawn from a grammar of '..', '.', '', '/', 'a/../..', absolute paths, deep '../' chains and mixtures with real names, each followed by stat/write/remove; the host path every fid designates is read through the accessor. Oracle: every fid path has the root as prefix, the canaries (content, kind, permissions, existence) are unchanged, no reply carries the inode of an outside object; correspondence: the Coq path functions (attach_path, walk_step/ufs_walk, create_path, rename_dest, symlink_ok) predict the same paths and refusals, given the listing of the tree. Distinct by content.",
@@ -292,6 +300,7 @@ PROPS = {
         "level_note": "Partial w.r.t. the kernel: path resolution is modelled lexically (sound for a tree without symlinks leaving it, which the property assumes and which the create check preserves). Trusted: Coq kernel; extraction; Go harness and the accessor. Print Assumptions: closed under the global context.",
     },
     "C13": {
+        "gen": ["consts", "shape"],
         "clauses": ["C13"],
         "modes": [{"name": "recv", "harness": "recv", "modelcheck": "recv"},
                   {"name": "clnt", "harness": "clnt", "modelcheck": "clnt"}],
